@@ -347,6 +347,11 @@ func c18(ctx *Ctx) (*Outcome, error) {
 		{"empty yaml file", []string{"-p", "x", "-o", "o.go", "empty.yaml"}, false},
 		{"valid control", []string{"-p", "x", "-o", "o.go", "a.json"}, false},
 		{"stdin unparsable", []string{"-p", "x", "-o", "o.go", "-"}, true},
+		// a referenced file that is mapped to a package WITHOUT an output file is still read and checked as a whole
+		{"ungeneratable sibling definition in a referenced file mapped to a package without output", []string{"-p", "x", "-o", "o.go", "--schema-package", "https://example.com/po=example.com/other", "pkgmain.json"}, true},
+		{"the same, root property of the referenced file", []string{"-p", "x", "-o", "o.go", "--schema-package", "https://example.com/po2=example.com/other", "pkgmain2.json"}, true},
+		{"the same, missing definition in the referenced file", []string{"-p", "x", "-o", "o.go", "--schema-package", "https://example.com/po3=example.com/other", "pkgmain3.json"}, true},
+		{"the same with an output file (control)", []string{"-p", "x", "-o", "o.go", "--schema-package", "https://example.com/po=example.com/other", "--schema-output", "https://example.com/po=other/o.go", "pkgmain.json"}, true},
 		// nothing listens on the loopback port: the transport error comes back at once, without any network
 		{"http URL as input, connection refused", []string{"-p", "x", "-o", "o.go", "http://127.0.0.1:1/schemas/order.json"}, true},
 		{"http URL as second input, connection refused", []string{"-p", "x", "-o", "o.go", "a.json", "http://127.0.0.1:1/schemas/order.yaml"}, true},
@@ -359,6 +364,12 @@ func c18(ctx *Ctx) (*Outcome, error) {
 				{Path: "ntorder.json", Data: []byte(`{"$id":"https://example.com/nto","title":"Order","type":"object","properties":{"buyer":{"$ref":"#/$defs/Customer"}},"$defs":{"Customer":{"title":"Customer","type":"object","properties":{"name":{"type":"string"}}}}}`)},
 				{Path: "customer.json", Data: []byte(`{"$id":"https://example.com/ntc","title":"Customer","type":"object","properties":{"name":{"type":"string"}},"$defs":{"Loyalty":{"type":"object","properties":{"points":{"type":"strng"}}}}}`)}, {Path: "badtype.json", Data: []byte(`{"$id":"https://example.com/bt","type":"object","properties":{"addr":{"type":"object","properties":{"z":{"type":"string"}}},"w":{"type":"kilogram"}}}`)},
 				{Path: "badref.json", Data: []byte(`{"$id":"https://example.com/br","type":"object","properties":{"r":{"$ref":"#/$defs/Nope"}}}`)}, {Path: "badenum.json", Data: []byte(`{"$id":"https://example.com/be","type":"object","properties":{"e":{"enum":[]}}}`)}, {Path: "empty.json", Data: nil}, {Path: "empty.yaml", Data: nil},
+				{Path: "pkgmain.json", Data: []byte(`{"$id":"https://example.com/pm","type":"object","properties":{"thing":{"$ref":"pkgother.json#/$defs/Thing"}}}`)},
+				{Path: "pkgother.json", Data: []byte(`{"$id":"https://example.com/po","type":"object","$defs":{"Thing":{"type":"object","properties":{"n":{"type":"integer"}}},"Broken":{"type":"object","properties":{"w":{"type":"intger"}}}}}`)},
+				{Path: "pkgmain2.json", Data: []byte(`{"$id":"https://example.com/pm2","type":"object","properties":{"thing":{"$ref":"pkgother2.json#/$defs/Thing"}}}`)},
+				{Path: "pkgother2.json", Data: []byte(`{"$id":"https://example.com/po2","type":"object","properties":{"e":{"enum":[]}},"$defs":{"Thing":{"type":"object","properties":{"n":{"type":"integer"}}}}}`)},
+				{Path: "pkgmain3.json", Data: []byte(`{"$id":"https://example.com/pm3","type":"object","properties":{"thing":{"$ref":"pkgother3.json#/$defs/Thing"}}}`)},
+				{Path: "pkgother3.json", Data: []byte(`{"$id":"https://example.com/po3","type":"object","$defs":{"Thing":{"type":"object","properties":{"n":{"type":"integer"}}},"Other":{"type":"object","properties":{"r":{"$ref":"#/$defs/DoesNotExist"}}}}}`)},
 				{Path: "httpref.json", Data: []byte(`{"$id":"https://example.com/hr","type":"object","properties":{"n":{"type":"string"},"r":{"$ref":"http://127.0.0.1:1/defs.json#/$defs/X"}}}`)},
 				{Path: "httpref2.yaml", Data: []byte("$id: https://example.com/hr2\ntype: object\nproperties:\n  r:\n    $ref: http://127.0.0.1:1/whole.yaml\n")}, {Path: "adir/keep", Data: []byte("x")}},
 				Args: fc.args, Seed: map[string][]byte{"o.go": []byte(sentinel), "same.go": []byte(sentinel), "oa.go": []byte(sentinel), "ob.go": []byte(sentinel)}, Stdin: []byte("{ not json")}
